@@ -176,12 +176,15 @@ func judgeLexWith(d Data, cache *ixCache) engine.Outcome {
 			}
 			last := toks[len(toks)-1].Range.End
 			fmt.Fprintf(&sig, "%d:%d", last.Line, last.Column)
-			if d.Mode == "normal" {
+			if d.Mode == "normal" && !ix.LeadingBOM {
+				// (A leading byte order mark is "not permitted" by the spec and
+				// stripped by the scanner; whether an identifier may carry one is
+				// Unspecified, so such inputs are left alone.)
 				// The identifier-only scanning mode is observable only through
 				// ValidIdentifier ("could be a valid identifier in a native
 				// syntax expression"): it must say yes exactly when the normal
 				// mode reads the whole string as one identifier token.
-				single := len(toks) == 2 && toks[0].Type == hclsyntax.TokenIdent && len(toks[0].Bytes) == len(bytes.TrimPrefix(d.Src, bom)) && len(toks[0].Bytes) > 0
+				single := len(toks) == 2 && toks[0].Type == hclsyntax.TokenIdent && len(toks[0].Bytes) == len(d.Src) && len(d.Src) > 0
 				if got := hclsyntax.ValidIdentifier(string(d.Src)); got != single {
 					return engine.Fail("c14.lex.identonly.disagrees-with-normal-mode", "ValidIdentifier(%q) = %v but the normal mode reads it as %d tokens (first %v)", d.Src, got, len(toks), toks[0].Type)
 				}
